@@ -72,10 +72,10 @@ Proof.
   intros st1 x st2 pth q0 H Hp Hg Hout Hx Hn. unfold PathModel.psim_add in *. cbn [PathModel.unlink sF sP sN].
   destruct (ins [] x) eqn:Hin; cbn [negb] in *; [|injection H as <-; reflexivity].
   destruct (padd (S L) [] (sF X st1) (PathModel.put X (sP X st1) (sN X st1) (x, [])) (sN X st1)) as [[F' P']|] eqn:A; [|discriminate].
-  injection H as <-. cbn [sF sP sN].
   assert (Xn : px (PathModel.put X (sP X st1) (sN X st1) (x, [])) (sN X st1) = x).
   { unfold PathModel.px. rewrite (put_nth_same X xd) by exact Hn. reflexivity. }
-  rewrite (padd_commute X xd ins octf same L okx Hroute (S L) [] _ _ _ F' P' pth q0 A Hp Hg); [reflexivity| | | |cbn; lia].
+  rewrite (padd_commute X xd ins octf same L okx Hroute (S L) [] _ _ _ F' P' pth q0 A Hp Hg);
+    [destruct (PathModel.pbp X xd P' (sN X st1)); injection H as <-; reflexivity| | | |cbn; lia].
   - cbn [app]. rewrite Xn. exact Hout.
   - rewrite Xn. exact Hin.
   - rewrite Xn. exact Hx.
